@@ -218,7 +218,7 @@ def run(cx):
         ob.require(hb.local_ty(0) == "()", "handle/unit", f"handle returns {hb.local_ty(0)}", hb.path)
         calls = [c for c in hb.calls() if not hb.is_cleanup(c.bb) and not is_tracing(c) and not in_ignored_expansion(hb, c.bb) and await_target(c) is None
                  and not name_matches(c.fn, ("IntoFuture::into_future", "Pin::new_unchecked", "future::get_context"))]
-        names = sorted({c.fn for c in calls})
+        names = sorted({c.fn for c in calls if c.local or (c.fn or "").startswith(("quinn", "tokio::task", "tokio::runtime", "std::process", "std::panic", "core::panicking"))})
         ob.require(names == [f"{RH}::BiStreamRequestHandler::do_handle"], "handle/only-do_handle", f"handle calls {names}", hb.path)
         # every fallible step in do_handle is consumed by `?` (no unwrap on IO/decode results): covered by the inventory; here: all error exits are propagations
         ws = seq_words(do_handle, lambda c, o: None, lambda bb, s, o: None, None, strict=False)
